@@ -139,7 +139,7 @@ impl Case10 {
                                 sum += x.1[j];
                                 mag += x.1[j].abs();
                             }
-                            let exact = run.exact && mag < EXACT_LIMIT;
+                            let exact = run.exact && mag < exact_limit();
                             if !close(g.1[j], sum, mag, exact) {
                                 return e(
                                     "not-additive",
